@@ -2222,6 +2222,15 @@ func (c *Conn) bufferHandshakeRecord(
 	// transcript cache without bound and make a finished endpoint repeat its
 	// last flight.
 	repeatOnly := header.Epoch == 0 && dtlsstate.CommonState(c.state).RemoteEpoch() != 0
+	// A finished DTLS 1.2 handshake has no successor (there is no
+	// renegotiation): the only handshake records still meaningful repeat the
+	// peer's last flight. New messages, even authentic ones, would pile up in
+	// the transcript cache for as long as the peer keeps sending them and make
+	// the endpoint answer each with its final flight.
+	if dtlsstate.CommonState(c.state).LocalVersion.Equal(protocol.Version1_2) &&
+		c.handshakeEstablished != nil && c.isHandshakeCompletedSuccessfully() {
+		repeatOnly = true
+	}
 	push := c.fragmentBuffer.Push
 	if repeatOnly {
 		push = c.fragmentBuffer.PushRetransmission
